@@ -113,7 +113,37 @@ def gen_C15(rng, tier):
             q2 = rand_ival(rng, "q", qs)
             case = "ptry %s %s" % (ival_tok(r), ival_tok(q2))
             groups.append(group("ptry", "c15_ptry", [case], nontrivial=abs(q2[3] - q2[2]) != ln))
+    if tier == "thorough":
+        groups += c15_exhaustive_small()
     return groups
+
+
+def c15_exhaustive_small():
+    """small scope, enumerated completely, at both ends of the u64 range: every pair of equal-length intervals with positions in a
+    window of 5 (reference) / 4 (query), all four strand combinations, same and other query contig, x every coordinate of the
+    window (plift) and every interval of the window on both strands (clamp)"""
+    out = []
+    for base in (0, U64 - 4):
+        W = [base + k for k in range(5)]
+        ivs = {"+": [("r", "+", a, b) for a in W for b in W if a <= b], "-": [("r", "-", b, a) for a in W for b in W if a <= b]}
+        for rs in "+-":
+            for r in ivs[rs]:
+                ln = abs(r[3] - r[2])
+                for qs in "+-":
+                    for qa in W[:4]:
+                        q = mk_ival("q", qs, qa if qs == "+" else qa + ln, ln) if (qa + ln <= U64) else None
+                        if q is None or abs(q[3] - q[2]) != ln:
+                            continue
+                        for p in W:
+                            for st in "+-":
+                                lo, hi = min(r[2], r[3]), max(r[2], r[3])
+                                case = "plift %s %s %s:%s:%d" % (ival_tok(r), ival_tok(q), xtok("r"), st, p)
+                                out.append(group("exhaustive-plift", "c15_plift", [case], nontrivial=(st == rs and lo <= p <= hi)))
+                        for st in "+-":
+                            for iv in ivs[st]:
+                                case = "clamp %s %s %s" % (ival_tok(r), ival_tok(q), ival_tok(iv))
+                                out.append(group("exhaustive-clamp", "c15_clamp", [case], nontrivial=(st == rs and meets(r, iv))))
+    return out
 
 
 @oracle("c15_clamp")
@@ -238,6 +268,22 @@ def gen_C14(rng, tier):
         else:
             line = gen_line_text(rng)
             groups.append(group("line", "c14_line", ["pline " + xtok(line)]))
+    if tier == "thorough":
+        # small scope, enumerated completely, at both ends of the u64 range: every (size, strand, start, end) in a window, and
+        # every (size, dt, dq, kind) offered to the record constructor
+        for base in (0, U64 - 5):
+            W = [str(base + k) for k in range(6)]
+            for size in W + ["0", str(U64)]:
+                for strand in ("+", "-", "?"):
+                    for a in W:
+                        for b in W:
+                            case = "seq %s %s %s %s %s" % tuple(xtok(x.encode("utf-8")) for x in ("n", size, strand, a, b))
+                            groups.append(group("exhaustive-seq", "c14_seq", [case]))
+        for size in (0, 1, 7, U64):
+            for dt in ("-", "0", "5", str(U64)):
+                for dq in ("-", "0", "7", str(U64)):
+                    for kind in "TN":
+                        groups.append(group("exhaustive-drec", "c14_drec", ["drec %d %s %s %s" % (size, dt, dq, kind)]))
     return groups
 
 
@@ -473,7 +519,33 @@ def gen_C04(rng, tier):
         c, fam = gen_step_case(rng)
         case = "step %s %s" % (xtok(gen.header_line(c).encode("latin-1")), ",".join(rec_tok(b) for b in c["blocks"]))
         groups.append(group(fam, "c04_step", [case], params={"chain": c}))
+    if tier == "thorough":
+        groups += c04_exhaustive_small()
     return groups
+
+
+def c04_exhaustive_small():
+    """small scope, enumerated completely: 1-3 records with sizes in {0,1,2} and gaps in {0,1}^2, all four strand pairs, chain start
+    0 or 1 on each side, declared extents exact or off by one on either side"""
+    import itertools
+    out = []
+    gaps = [(0, 0), (0, 1), (1, 0), (1, 1)]
+    for nb in (1, 2, 3):
+        for szs in itertools.product((0, 1, 2), repeat=nb):
+            for gs in itertools.product(gaps, repeat=nb - 1):
+                blocks = [(szs[k],) + gs[k] for k in range(nb - 1)] + [(szs[-1],)]
+                tlen = sum(b[0] + (b[1] if len(b) == 3 else 0) for b in blocks)
+                qlen = sum(b[0] + (b[2] if len(b) == 3 else 0) for b in blocks)
+                for ts, qs, t0, q0 in itertools.product("+-", "+-", (0, 1), (0, 1)):
+                    for dt_, dq_ in ((0, 0), (1, 0), (0, 1), (-1, 0), (0, -1)):
+                        tend, qend = t0 + tlen + dt_, q0 + qlen + dq_
+                        if tend < t0 or qend < q0:
+                            continue
+                        c = dict(score=0, tname="r", tsize=max(tend, t0 + tlen), tstrand=ts, tstart=t0, tend=tend,
+                                 qname="q", qsize=max(qend, q0 + qlen) + 1, qstrand=qs, qstart=q0, qend=qend, id=1, blocks=blocks)
+                        case = "step %s %s" % (xtok(gen.header_line(c).encode("latin-1")), ",".join(rec_tok(b) for b in blocks))
+                        out.append(group("exhaustive-small", "c04_step", [case], params={"chain": c}))
+    return out
 
 
 @oracle("c04_step")
